@@ -363,12 +363,15 @@ impl Side {
         self.try_pc().expect("pc dropped")
     }
     pub fn close(&self) -> bool {
-        // no clone: close through the stored handle so that no extra reference exists
-        if let Some(pc) = self.pc.lock().as_ref() {
-            pc.close();
-            true
-        } else {
-            false
+        // a short-lived clone: the handle mutex must not be held while close() runs (close() can block on a
+        // lock of the connection, and other harness threads need the handle meanwhile)
+        let pc = self.pc.lock().clone();
+        match pc {
+            Some(pc) => {
+                pc.close();
+                true
+            }
+            None => false,
         }
     }
     /// The application drops its handle.
